@@ -1215,8 +1215,17 @@ VmTrap vm_core_execute(VmState *vm) {
                 vm_release(&vm->heap, arr);
                 return trap_error(vm, VM_ERR_TYPE_ERROR, "ARR_SLICE: not an array");
             }
-            uint32_t start = (uint32_t)(start_v.tag == TAG_INT ? start_v.as.i64 : 0);
-            uint32_t end = (uint32_t)(end_v.tag == TAG_INT ? end_v.as.i64 : arr.as.array->length);
+            /* (array_slice a start length): the third operand is a LENGTH, as in the
+             * interpreter and the compiled runtime; clamp in 64 bits before narrowing */
+            int64_t alen = (int64_t)arr.as.array->length;
+            int64_t start64 = start_v.tag == TAG_INT ? start_v.as.i64 : 0;
+            int64_t count64 = end_v.tag == TAG_INT ? end_v.as.i64 : alen;
+            if (start64 < 0) start64 = 0;
+            if (count64 < 0) count64 = 0;
+            if (start64 > alen) start64 = alen;
+            if (count64 > alen - start64) count64 = alen - start64;
+            uint32_t start = (uint32_t)start64;
+            uint32_t end = (uint32_t)(start64 + count64);
             VmArray *result = vm_array_slice(&vm->heap, arr.as.array, start, end);
             vm_release(&vm->heap, arr);
             stack_push(vm, val_array(result));
